@@ -46,7 +46,7 @@ type c19Pre struct {
 }
 
 type c19Step struct {
-	Jump string `json:"j"`           // gap | mid | days
+	Jump string `json:"j"`            // gap | mid | days
 	Ms   int64  `json:"ms,omitempty"` // gap: sleep Ms; mid: sleep to next local midnight + Ms (may be negative)
 	N    int    `json:"n,omitempty"`  // days: sleep N*24h
 	Lens []int  `json:"w,omitempty"`  // burst: record lengths, written back to back
@@ -66,7 +66,7 @@ type c19Case struct {
 	PreCur     []int     `json:"precur,omitempty"`
 	Pre        []c19Pre  `json:"pre,omitempty"`
 	Unrel      []string  `json:"unrel,omitempty"`
-	StepWait   bool      `json:"sw,omitempty"` // wait for quiescence after every single record
+	StepWait   bool      `json:"sw,omitempty"`  // wait for quiescence after every single record
 	TZ         int       `json:"tz,omitempty"`  // local time zone, minutes east of UTC (names are formatted in local time)
 	Via        bool      `json:"via,omitempty"` // build the writer through logx.createOutput and the package options
 	Steps      []c19Step `json:"steps"`
@@ -429,8 +429,8 @@ func c19Run(c c19Case, root string, r *c19Result) {
 			held.Close()
 		}
 	}()
-	loc := map[int]string{}   // record id -> file it was seen in at the previous snapshot
-	gone := map[int]bool{}    // record id -> its backup was removed by a justified clean-up
+	loc := map[int]string{} // record id -> file it was seen in at the previous snapshot
+	gone := map[int]bool{}  // record id -> its backup was removed by a justified clean-up
 	tolerated := map[int]bool{}
 	nextID := 1
 	coherent := c.Gzip == c.Compress
